@@ -9,7 +9,7 @@
    This file contains nothing but the property theorems, each closed by [exact <lemma>]. *)
 From Coq Require Import ZArith List Bool.
 From Tickit Require Import RectDefs RBDefs RBSpec RBLemmas RBAbsLemmas RBInv RBProofs RBRestore RBCopyDefs RBCopySpec RBCopyProofs
-                           RBCopyRefine RBCopyLoop.
+                           RBCopyRefine RBCopyLoop RBMoveProofs.
 Import ListNotations.
 Local Open Scope Z_scope.
 
@@ -26,13 +26,12 @@ Theorem C13_blit_aux_unchanged : forall dst src,
 Proof. exact blit_ok. Qed.
 Print Assumptions C13_blit_aux_unchanged.
 
-(* moverect: the same, for every call that returns.  (The vacated-area computation goes through
-   the model of rectset.c, which is fuelled; that it returns is the subject of C05 and is
-   covered here by the correspondence check only.) *)
-Theorem C13_move_aux_unchanged_partial : forall s dr sr s',
+(* moverect with a possibly empty rectangle: the same, for every call that returns (for non-empty
+   rectangles C13_move_full below shows that it does return). *)
+Theorem C13_move_aux_unchanged : forall s dr sr s',
   Inv s -> rect_in s sr -> moverect_op s dr sr = Ok s' -> keeps s s'.
 Proof. exact moverect_op_keeps. Qed.
-Print Assumptions C13_move_aux_unchanged_partial.
+Print Assumptions C13_move_aux_unchanged.
 
 (* One step of the column loop, for any position inside the rectangle: it succeeds, is
    balanced, and moves on (termination of the loop, in both directions). *)
@@ -82,18 +81,23 @@ Theorem C13_blit_reachable : forall L C pre dst v L' C' pre' src v',
 Proof. exact blit_reachable. Qed.
 Print Assumptions C13_blit_reachable.
 
-(* NOT PROVED (full statement; carried by the correspondence check as testing, exhaustively over
-   every rectangle pair inside a 2x6 buffer for 9 prepared contents, plus random programs):
+(* Moving: the copy, and additionally the vacated cells -- source minus destination -- are left
+   skipped (a_moverect); nothing else changes; no fault, in particular the rectangle-set
+   computation (the model of the part of rectset.c used here) returns.  For non-empty
+   rectangles. *)
+Theorem C13_move_full : forall s dr sr,
+  Inv s -> ainv (abs_rb s) -> achar_ok (abs_rb s) -> xl (aux s) = 0 -> xc (aux s) = 0 -> rect_in s sr ->
+  0 < lines sr -> 0 < cols sr ->
+  exists s', moverect_op s dr sr = Ok s' /\ Inv s' /\ aux s' = aux s /\ abs_rb s' = a_moverect (abs_rb s) dr sr.
+Proof. exact moverect_refines. Qed.
+Print Assumptions C13_move_full.
 
-   C13_move_full : forall s dr sr s',
-     Inv s -> ainv (abs_rb s) -> achar_ok (abs_rb s) -> xl (aux s) = 0 -> xc (aux s) = 0 -> rect_in s sr ->
-     moverect_op s dr sr = Ok s' -> abs_rb s' = a_moverect (abs_rb s) dr sr.
-
-   Its copy half is C13_copy_full.  What is missing is the vacated area: that the rectangles the
-   model of rectset.c (add, then subtract of the destination-positioned rectangle) returns cover
-   exactly source minus destination -- a statement about tickit_rectset_add/_subtract, which is
-   property C05's subject -- and that the model returns at all (C13_move_aux_unchanged_partial
-   is conditional on that). *)
+Theorem C13_move_reachable : forall L C pre s v dr sr,
+  0 <= L -> 0 <= C -> run (rb_new L C) pre = Ok (s, v) ->
+  xl (aux s) = 0 -> xc (aux s) = 0 -> rect_in s sr -> 0 < lines sr -> 0 < cols sr ->
+  exists s', moverect_op s dr sr = Ok s' /\ Inv s' /\ aux s' = aux s /\ abs_rb s' = a_moverect (abs_rb s) dr sr.
+Proof. exact moverect_reachable. Qed.
+Print Assumptions C13_move_reachable.
 
 Example C13_nonvacuous :
   exists s v, run (rb_new 2 6) [OTextAt 0 0 [65; 66; 67; 68; 69; 70]; OCharAt 0 2 120; OSave] = Ok (s, v) /\
